@@ -16,7 +16,7 @@ def to_smt2(ob, axioms=(), rounds=2):
     so = Solver()
     base = list(ob.hyps) + list(ob.extra or []) + [Not(ob.goal)] + list(axioms)
     so.add(*base)
-    uf = unfoldings(base, rounds=rounds)
+    uf = unfoldings(base, rounds=rounds, opaque=getattr(ob, 'opaque', ()))
     so.add(*uf)
     return so.to_smt2()
 
